@@ -8,4 +8,88 @@ namespace JoblibModel.NJobs
 theorem effectiveNJobs_sequential (level : Option Nat) (env : EffEnv) (n : Option Int) :
     effectiveNJobs .sequential level env n = if n = some 0 then .error .valueError else .ok 1 := rfl
 
+/-! ### The `ThreadPool` of one `ThreadingBackend` instance -/
+
+/-- Between two dispatches of a call that resolved `n` jobs: `_n_jobs = n` and the pool is either
+not built yet or has exactly `n` threads. -/
+def TGood (n : Nat) (b : TBackend) : Prop := b.nJobs = n ∧ (b.pool = none ∨ b.pool = some n)
+
+theorem tSubmits_asIs (n t : Nat) (b : TBackend) (h : TGood n b) :
+    (∀ k ∈ (tSubmits .asIs b t).2, k = n) ∧ TGood n (tSubmits .asIs b t).1 ∧
+    (tSubmits .asIs b t).2.length = t := by
+  induction t generalizing b with
+  | zero => simp [tSubmits, h]
+  | succ t ih =>
+    obtain ⟨hn, hp⟩ := h
+    have hstep : (tGetPool .asIs b).2 = n ∧ TGood n (tGetPool .asIs b).1 := by
+      rcases hp with hp | hp <;> simp [tGetPool, hp, TGood, hn]
+    obtain ⟨h1, h2, h3⟩ := ih (tGetPool .asIs b).1 hstep.2
+    refine ⟨?_, h2, by simp [tSubmits, h3]⟩
+    intro k hk
+    simp only [tSubmits, List.mem_cons] at hk
+    rcases hk with hk | hk
+    · rw [hk]; exact hstep.1
+    · exact h1 k hk
+
+theorem tPlain_asIs (n t : Nat) (b : TBackend) (h : b.pool = none) :
+    (∀ k ∈ (tPlain .asIs b n t).2, k = n) ∧ (tPlain .asIs b n t).1.pool = none ∧
+    (n ≠ 1 → (tPlain .asIs b n t).2.length = t) := by
+  unfold tPlain
+  by_cases hn : n = 1
+  · simp [hn, h]
+  · have hg : TGood n (tConfigure b n) := by simp [tConfigure, hn, TGood, h]
+    obtain ⟨h1, _, h3⟩ := tSubmits_asIs n t _ hg
+    simp only [hn, if_false]
+    exact ⟨h1, by simp [tTerminate], fun _ => h3⟩
+
+def ownOnly (body : List TItem) : Bool :=
+  body.all (fun i => match i with | .own _ => true | .foreign _ _ => false)
+
+theorem tBody_asIs (n : Nat) (body : List TItem) (hc : ownOnly body = true) (b : TBackend)
+    (h : if n = 1 then b.pool = none else TGood n b) :
+    (∀ o ∈ (tBody .asIs n b body).2, o.n = n ∧ ∀ k ∈ o.sizes, k = n) ∧
+    (if n = 1 then (tBody .asIs n b body).1.pool = none else TGood n (tBody .asIs n b body).1) := by
+  induction body generalizing b with
+  | nil => simp [tBody, h]
+  | cons i rest ih =>
+    cases i with
+    | foreign m t => simp [ownOnly] at hc
+    | own t =>
+      have hrest : ownOnly rest = true := by
+        simp [ownOnly] at hc ⊢; exact hc
+      by_cases hn : n = 1
+      · subst hn
+        simp only [if_true] at h ih ⊢
+        obtain ⟨h1, h2⟩ := ih hrest b h
+        simp only [tBody, if_true]
+        refine ⟨?_, h2⟩
+        intro o ho
+        simp only [List.mem_cons] at ho
+        rcases ho with ho | ho
+        · subst ho; simp
+        · exact h1 o ho
+      · simp only [hn, if_false] at h ih ⊢
+        obtain ⟨s1, s2, _⟩ := tSubmits_asIs n t b h
+        obtain ⟨h1, h2⟩ := ih hrest _ s2
+        simp only [tBody, hn, if_false]
+        refine ⟨?_, h2⟩
+        intro o ho
+        simp only [List.mem_cons] at ho
+        rcases ho with ho | ho
+        · subst ho; exact ⟨rfl, s1⟩
+        · exact h1 o ho
+
+theorem tManaged_asIs (n : Nat) (body : List TItem) (hc : ownOnly body = true) (b : TBackend)
+    (h : b.pool = none) :
+    (∀ o ∈ (tManaged .asIs b n body).2, o.n = n ∧ ∀ k ∈ o.sizes, k = n) ∧
+    (tManaged .asIs b n body).1.pool = none := by
+  have hg : if n = 1 then (tConfigure b n).pool = none else TGood n (tConfigure b n) := by
+    by_cases hn : n = 1 <;> simp [tConfigure, hn, TGood, h]
+  obtain ⟨h1, h2⟩ := tBody_asIs n body hc _ hg
+  unfold tManaged
+  refine ⟨h1, ?_⟩
+  by_cases hn : n = 1
+  · simp only [hn, if_true] at h2 ⊢; exact h2
+  · simp [hn, tTerminate]
+
 end JoblibModel.NJobs
